@@ -18,6 +18,7 @@ git apply -R $S/patch.diff
 git apply $S/patch.diff
 echo "suite with change: $T"
 echo "demo with change rc=$RW ; without change rc=$RWO"
+if [ -n "$CONFIRM_ONLY" ]; then rm -f /tmp/seed_current_$NAME.diff /tmp/seed_demo_with_$NAME.txt /tmp/seed_demo_without_$NAME.txt; exit 0; fi
 if [ -n "$(git -C /repo status --porcelain)" ]; then echo "/repo dirty"; exit 9; fi
 git -C /repo apply /tmp/seed_current_$NAME.diff || { echo "patch does not apply to /repo"; exit 9; }
 cd /verif
